@@ -48,4 +48,76 @@ theorem torusFaces_norm (M N : Nat) (t : Bool) : torusFaces M N t = torusFacesCa
      · index_lists
      · index_lists)
 
+/-! ## round 5: the same layer for `sphere_uv`, `cylinder`, `ring`, `flat_ring`, `unit_triangle` -/
+
+/-- the face loop of `sphere_uv` in the normal spelling -/
+def sphere_uvFacesCanon (n_lat n_long : Nat) : List (List Nat) :=
+  (((List.range n_long).flatMap (fun i => (let i0 := (i + 1); (let i1 := (((i + 1) % n_long) + 1); ([[i0, 0, i1]] ++ (let i0 := ((i + (n_long * (n_lat - 1))) + 1); (let i1 := ((((i + 1) % n_long) + (n_long * (n_lat - 1))) + 1); [[((sphere_uvNVerts n_lat n_long) - 1), i0, i1]]))))))) ++ ((List.range (n_lat - 1)).flatMap (fun j => (let j0 := ((j * n_long) + 1); (let j1 := (((j + 1) * n_long) + 1); ((List.range n_long).flatMap (fun i => (let i0 := (j0 + i); (let i1 := (j0 + ((i + 1) % n_long)); (let i2 := (j1 + ((i + 1) % n_long)); (let i3 := (j1 + i); [[i0, i1, i2, i3]])))))))))))
+
+/-- the face loop of `cylinder` in the normal spelling -/
+def cylinderFacesCanon (N : Nat) (fill_caps : Bool) : List (List Nat) :=
+  ((if fill_caps = true then ((List.range N).flatMap (fun i => ([[i, ((i + 1) % N), (2 * N)]] ++ [[(i + N), ((2 * N) + 1), (((i + 1) % N) + N)]]))) else []) ++ ((List.range N).flatMap (fun i => ([[i, (N + i), ((i + 1) % N)]] ++ [[(N + i), (N + ((i + 1) % N)), ((i + 1) % N)]]))))
+
+/-- the face loop of `ring` in the normal spelling -/
+def ringFacesCanon (N n_cover : Nat) (isOpen : Bool) : List (List Nat) :=
+  (((List.range' 1 ((N * n_cover) - 1)).flatMap (fun i => (let nxt := (if isOpen = true then (i + 1) else ((i + 1) % ((N * n_cover) + 1))); [[0, i, nxt]]))) ++ (if isOpen = true then [[0, (N * n_cover), ((N * n_cover) + 1)]] else [[0, (N * n_cover), 1]]))
+
+/-- the face loop of `flat_ring` in the normal spelling -/
+def flat_ringFacesCanon (N n_cover : Nat) : List (List Nat) :=
+  ((List.range (N * n_cover)).flatMap (fun i => [[0, (i + 1), (i + 2)]]))
+
+/-- the face loop of `unit_triangle` in the normal spelling -/
+def unit_triangleFacesCanon (nu nv : Nat) (generate_uvs : Bool) : List (List Nat) :=
+  (let npt := 0; ((List.range nv).flatMap (fun j => (((List.range nu).takeWhile (fun i => decide (¬(((i > j) ∨ (j = (nv - 1))))))).flatMap (fun i => (let kpt := (((j * (j + 1)) / 2) + i); ((if (i < j) then [[kpt, ((kpt + j) + 2), (kpt + 1)]] else []) ++ [[kpt, ((kpt + j) + 1), ((kpt + j) + 2)]])))))))
+
+theorem ite_congr_same {α} (c : Prop) [Decidable c] (a a' b b' : α) (h1 : c → a = a') (h2 : ¬c → b = b') :
+    (if c then a else b) = (if c then a' else b') := by
+  by_cases h : c
+  · simp only [h, if_true]; exact h1 h
+  · simp only [h, if_false]; exact h2 h
+
+theorem takeWhile_flatMap_congr {β} (l : List Nat) (p q : Nat → Bool) (f g : Nat → List β) (hp : ∀ x, p x = q x)
+    (h : ∀ a ∈ l, f a = g a) : (l.takeWhile p).flatMap f = (l.takeWhile q).flatMap g := by
+  have : p = q := funext hp
+  subst this
+  apply flatMap_congr_on
+  intro a ha
+  exact h a ((List.takeWhile_sublist p).subset ha)
+
+/-- `l.flatMap f = l.flatMap g`, `a ++ b = a' ++ b'`, `(if c then a else b) = (if c then a' else b')`, `let`s, literal face lists
+whose entries agree up to commutative-semiring identities (also inside `%` and `/`): the structure of the two loop nests must be
+the same, the spelling of every index expression is free -/
+macro "norm_faces" : tactic =>
+  `(tactic| first
+    | rfl
+    | ((try simp only [])
+       repeat' (first
+         | rfl
+         | (apply flatMap_congr_on; intro _ _)
+         | (apply takeWhile_flatMap_congr _ _ _ _ _ (fun _ => by first | rfl | (apply decide_eq_decide.mpr; omega)); intro _ _)
+         | (apply congrArg₂ (· ++ ·))
+         | (apply ite_congr_same <;> intro _)
+         | (simp only [List.cons_append, List.nil_append, List.cons.injEq, and_true]; (repeat' constructor) <;>
+              first | ring1 | (ring_nf; done) | omega))))
+
+theorem sphere_uvFaces_norm (n_lat n_long : Nat) : sphere_uvFaces n_lat n_long = sphere_uvFacesCanon n_lat n_long := by
+  unfold sphere_uvFaces sphere_uvFacesCanon
+  norm_faces
+
+theorem cylinderFaces_norm (N : Nat) (fill_caps : Bool) : cylinderFaces N fill_caps = cylinderFacesCanon N fill_caps := by
+  unfold cylinderFaces cylinderFacesCanon
+  norm_faces
+
+theorem ringFaces_norm (N n_cover : Nat) (isOpen : Bool) : ringFaces N n_cover isOpen = ringFacesCanon N n_cover isOpen := by
+  unfold ringFaces ringFacesCanon
+  norm_faces
+
+theorem flat_ringFaces_norm (N n_cover : Nat) : flat_ringFaces N n_cover = flat_ringFacesCanon N n_cover := by
+  unfold flat_ringFaces flat_ringFacesCanon
+  norm_faces
+
+theorem unit_triangleFaces_norm (nu nv : Nat) (generate_uvs : Bool) : unit_triangleFaces nu nv generate_uvs = unit_triangleFacesCanon nu nv generate_uvs := by
+  unfold unit_triangleFaces unit_triangleFacesCanon
+  norm_faces
+
 end Mouette.Props.C14
